@@ -9,6 +9,16 @@ export CARGO_NET_OFFLINE=true
 mkdir -p "$VERIF/target" "$VERIF/evidence" "$VERIF/violations"
 ln -sfn "$REPO" "$VERIF/engine-link"
 
+# force a rebuild of the engine inside the sendsync target whenever the sources changed (mtimes are not reliable
+# once engine-link has pointed at another tree)
+SRC_HASH=$( (cd "$REPO" && cat Cargo.toml src/*.rs 2>/dev/null | sha256sum | cut -d' ' -f1) )
+mkdir -p "$VERIF/target/sendsync"
+if [ "$(cat "$VERIF/target/sendsync/.engine-src-hash" 2>/dev/null)" != "$SRC_HASH" ]; then
+  find "$VERIF/target/sendsync" -type d -path '*/.fingerprint/arimaa_engine_step-*' -prune -exec rm -rf {} + 2>/dev/null
+  find "$VERIF/target/sendsync" -type d -path '*/.fingerprint/sendsync-*' -prune -exec rm -rf {} + 2>/dev/null
+  echo "$SRC_HASH" > "$VERIF/target/sendsync/.engine-src-hash"
+fi
+
 # ---- stage A ----
 logA="$VERIF/target/build-sendsync.log"
 if ! (cd "$VERIF/sendsync" && CARGO_TARGET_DIR="$VERIF/target/sendsync" cargo build --offline >"$logA" 2>&1); then
